@@ -342,6 +342,12 @@ def _add(module: Module, val: ModuleAttr) -> ModuleAttr:
         # Nonetheless gotta raise an error if we get here, somehow.
         _attr_type_error(val)
 
+    # A prior attribute of the same name is no longer ours.
+    # Anything still connected to it refers to an object outside this module, which the `Orphanage` reports.
+    prior = module.namespace.get(val.name, None)
+    if prior is not None and prior is not val:
+        prior._parent_module = None
+
     # Remove any prior attribute of the same name, which may be of a different type, from its type-specific container
     for ctr in (
         module.ports,
